@@ -127,7 +127,7 @@ def vars_to_models(pid):
 
 def add_obligations(pack, tier, pid='C01'):
     pack.trust('np.add.at(a, idx, v) adds v[k] to a[idx[k]] for every k (duplicates accumulate); np.put(a, idx, v) stores')
-    run_contracts(pack, [(e_to_dae(pid),), (fg_to_dae(pid),), (vars_to_models(pid),), (store_adder_setter(pid), None, replay_store_adder_setter)])
+    run_contracts(pack, [(e_to_dae(pid),), (fg_to_dae(pid), None, replay_fg_to_dae), (vars_to_models(pid),), (store_adder_setter(pid), None, replay_store_adder_setter)])
 
 
 def store_adder_setter(pid):
@@ -274,3 +274,30 @@ def replay_store_adder_setter(obligation=None, model=None, meta=None):
 
 
 replay_store_adder_setter.real_system = True
+
+
+def replay_fg_to_dae(obligation=None, model=None, meta=None):
+    """native run of the real System.fg_to_dae on a stub: states that are private copies (not views of dae.x, as with
+    ``flags.collate``) reach dae.x only through this write-back; every pegged entry must land at its address"""
+    import numpy as np
+    from andes.system import System
+    from contracts.packutil import Stub
+    n = 0
+    for sets in ([[(np.array([1, 3]), np.array([0.5, -0.25]), 0.0)]],
+                 [[(np.array([0]), np.array([2.0]), 0.0)], [], [(np.array([2, 4]), np.array([7.0, 8.0]), 0.0), (np.array([3]), np.array([-1.0]), 0.0)]]):
+        calls = []
+        x = np.arange(5, dtype=float) * 10 + 1
+        want = x.copy()
+        for xs in sets:
+            for key, val, _ in xs:
+                want[key] = val
+        stub = Stub(System, dae=Stub(x=x), antiwindups=[Stub(x_set=list(xs)) for xs in sets],
+                    _e_to_dae=lambda names, calls=calls: calls.append(('e_to_dae', tuple(names))), g_islands=lambda calls=calls: calls.append(('g_islands',)))
+        n += 1
+        System.fg_to_dae(stub)
+        if not np.array_equal(stub.dae.x, want) or calls != [('e_to_dae', ('f', 'g')), ('g_islands',)]:
+            return {'confirmed': True, 'inputs': {'dae.x before': (np.arange(5, dtype=float) * 10 + 1).tolist(),
+                                                  'x_set per limiter (address, pegged value)': [[(k.tolist(), v.tolist()) for k, v, _ in xs] for xs in sets]},
+                    'observed': 'dae.x after fg_to_dae %r, with the pegged values written back it is %r; calls %r' % (stub.dae.x.tolist(), want.tolist(), calls),
+                    'native_cmd': 'System.fg_to_dae(stub)'}
+    return {'confirmed': False, 'tried': n}
